@@ -1499,6 +1499,11 @@ class Buffer:
             return self.cursor_position
         else:
             working_index, cursor_position = search_result
+
+            # A match in another history entry is not a position in this
+            # document: stay where we are.
+            if working_index != self.working_index:
+                return self.cursor_position
             return cursor_position
 
     def apply_search(
